@@ -1067,7 +1067,17 @@ impl ArrayData {
             )));
         }
 
-        Ok(&buffer.typed_data::<T>()[self.offset..required_elements])
+        // Only the first `required_len` bytes are interpreted: the buffer may be longer, and
+        // trailing bytes need not form a whole element (`Buffer::typed_data` would panic on them)
+        // SAFETY: `ArrowNativeType` is only implemented for types that are valid for any bit pattern
+        let (prefix, values, suffix) = unsafe { buffer.as_slice()[..required_len].align_to::<T>() };
+        if !prefix.is_empty() || !suffix.is_empty() {
+            return Err(ArrowError::InvalidArgumentError(format!(
+                "Buffer {idx} of {} is not aligned to {byte_width} bytes",
+                self.data_type
+            )));
+        }
+        Ok(&values[self.offset..required_elements])
     }
 
     /// Does a cheap sanity check that the `self.len` values in `buffer` are valid
